@@ -100,6 +100,10 @@ def execute(acc, g, case):
                 acc.counters["dispatches"] += 1
                 acc.sigs.add(harness.sig_hash("%d/%d/%s/%s/%s" % (len(case["apps"]), case["codes_per_app"], key[1], outcome, has_sid)))
                 new = [m for _, m in h.sent()[before:]]
+                own = [m for _, m in h.sent(key[0])]
+                if judged_later := (len(new) == 1 and (not own or own[-1] is not new[0])):
+                    acc.violation("answer-sent-through-another-applications-worker", "the answer for %s left through a different connection" % (key,), w)
+                    return
                 judged = has_sid and has_origin
                 if not finished:
                     acc.violation("dispatch-never-finishes:%s" % outcome, "the dispatch task for %s/%s is still running: %s" % (key, outcome, sched.blocked_report()), w)
@@ -129,7 +133,8 @@ def execute(acc, g, case):
                     orr = [a.value for a in lm.avps if a.code == 296]
                     dh = [a.value for a in lm.avps if a.code == 293]
                     dr = [a.value for a in lm.avps if a.code == 283]
-                    want = ([(5012).to_bytes(4, "big")], [appnode.LOCAL_HOST.encode()], [appnode.LOCAL_REALM.encode()], [req_origin[0]], [req_origin[1]])
+                    cfg = h.stubs[key[0]].config        # the connection that serves this application
+                    want = ([(5012).to_bytes(4, "big")], [cfg["LOCAL_NODE_HOSTNAME"].encode()], [cfg["LOCAL_NODE_REALM"].encode()], [req_origin[0]], [req_origin[1]])
                     if (rc, oh, orr, dh, dr) != want:
                         acc.violation("fallback-answer-content:%s" % outcome, "fallback carries result %r origin %r/%r destination %r/%r; expected %r" % (rc, oh, orr, dh, dr, want), w)
                         return
